@@ -4,8 +4,10 @@ import (
 	"fmt"
 	"math"
 	"os"
+	"runtime/debug"
 	"strings"
 
+	"google.golang.org/protobuf/proto"
 	"pgregory.net/rapid"
 
 	"go.etcd.io/raft/v3"
@@ -52,6 +54,7 @@ var baseWeights = map[string]int{
 	"propose": 8, "proposebatch": 1, "proposeconf": 2, "transfer": 1, "readindex": 2,
 	"campaign": 1, "forget": 1, "unreachable": 1, "reportsnap": 3, "compact": 1,
 	"crash": 1, "restart": 4, "isolate": 1, "blocklink": 1, "heal": 2,
+	"duprecent": 2, "diverge": 1, "proposemixed": 1, "burst": 3,
 }
 
 func mkProfile(name string, over map[string]int, f func(p *Profile)) *Profile {
@@ -248,6 +251,24 @@ func RunCase(d Drawer, cfg CaseConfig) (res CaseResult) {
 					res.Aborted = true
 				}
 			default:
+				// a panic outside the guarded calls: if it originates in raft
+				// code it is a C14 matter, otherwise a harness bug.
+				stack := string(debug.Stack())
+				if _, isRaft := r.(RaftPanic); isRaft || panicInRaft(stack) {
+					pe := PanicEvent{Msg: fmt.Sprint(r), Stack: stack, Step: s.Step, What: "unguarded call"}
+					s.Panics = append(s.Panics, pe)
+					s.tracef("PANIC (unguarded): %s", pe.Msg)
+					props := append([]string{"C14"}, panicProps(pe.Msg)...)
+					for _, p := range props {
+						if mon.Owned[p] {
+							res.Violation = &Violation{Prop: p, Monitor: "no_panic", Sig: "c14.panic:" + panicClass(pe.Msg), Msg: "raft panicked: " + pe.Msg, Step: s.Step}
+							s.tracef("%s", res.Violation.Error())
+							return
+						}
+					}
+					res.Aborted = true
+					return
+				}
 				panic(r)
 			}
 		}
@@ -300,7 +321,31 @@ func (s *Sim) RandomAction(p *Profile) {
 		}
 		s.Deliver(deliverable[i], false)
 	})
-	add("dup", len(deliverable) > 0, func() { s.Deliver(deliverable[d.Int(0, len(deliverable)-1, "flight")], true) })
+	add("dup", len(deliverable) > 0, func() {
+		// snapshots are rare in the pool but their late/duplicate delivery
+		// matters: prefer them half of the time
+		var snaps []int
+		for _, i := range deliverable {
+			if s.Net.Pool[i].M.GetType() == pb.MsgSnap {
+				snaps = append(snaps, i)
+			}
+		}
+		if len(snaps) > 0 && d.Int(0, 1, "prefersnap") == 1 {
+			s.Deliver(snaps[d.Int(0, len(snaps)-1, "flight")], true)
+			return
+		}
+		s.Deliver(deliverable[d.Int(0, len(deliverable)-1, "flight")], true)
+	})
+	var recent []*Flight
+	for _, f := range s.Net.Recent {
+		if n := s.Nodes[f.To]; n != nil && n.Up && !s.Net.blocked(f.From, f.To) {
+			recent = append(recent, f)
+		}
+	}
+	add("duprecent", len(recent) > 0, func() { s.Redeliver(recent[d.Int(0, len(recent)-1, "recent")]) })
+	add("burst", len(deliverable) > 0, func() { s.Burst(s.Nodes[s.Net.Pool[deliverable[d.Int(0, len(deliverable)-1, "flight")]].To]) })
+	add("diverge", len(up) >= 3, func() { s.Diverge(p) })
+	add("proposemixed", len(up) > 0, func() { s.proposeMixed(s.proposerNode(up), p) })
 	add("drop", len(s.Net.Pool) > 0, func() { s.Drop(d.Int(0, len(s.Net.Pool)-1, "flight")) })
 	add("tick", len(up) > 0, func() { s.Tick(pickNode(up, "node")) })
 	add("tickall", len(up) > 0, func() {
@@ -497,6 +542,11 @@ func (s *Sim) TickUntilCampaign(n *Node) {
 // randomConfChange proposes a conf change that is mostly valid with respect
 // to the harness's model of the committed configuration.
 func (s *Sim) randomConfChange(n *Node) {
+	cc := s.drawConfChange()
+	s.ProposeConf(n, cc, s.D.Int(0, 1, "v1") == 1)
+}
+
+func (s *Sim) drawConfChange() *pb.ConfChangeV2 {
 	d := s.D
 	conf := s.Reg.latestConf()
 	var members, nonMembers, voters, learners []uint64
@@ -568,7 +618,7 @@ func (s *Sim) randomConfChange(n *Node) {
 	default:
 		// leave-joint while possibly not joint
 	}
-	s.ProposeConf(n, cc, d.Int(0, 1, "v1") == 1)
+	return cc
 }
 
 // FailureReport renders a violation with the trace for humans.
@@ -601,3 +651,178 @@ func WriteFailure(dir, name string, res CaseResult) string {
 }
 
 var _ = refmodel.Quorum
+
+// panicInRaft reports whether the innermost non-runtime frame of a panic
+// stack (as printed by debug.Stack in a deferred function) is raft code.
+func panicInRaft(stack string) bool {
+	lines := strings.Split(stack, "\n")
+	seenPanic := false
+	for _, l := range lines {
+		if strings.HasPrefix(l, "\t") {
+			continue
+		}
+		if strings.HasPrefix(l, "panic(") {
+			seenPanic = true
+			continue
+		}
+		if !seenPanic {
+			continue
+		}
+		if strings.HasPrefix(l, "runtime.") || strings.HasPrefix(l, "runtime/") {
+			continue
+		}
+		return strings.HasPrefix(l, "go.etcd.io/raft/v3")
+	}
+	return false
+}
+
+// Diverge is a macro that manufactures a divergent uncommitted tail: the
+// current leader is isolated and keeps accepting proposals, another node is
+// elected by the rest and commits different entries at the same indexes
+// (optionally compacting them away), then the partition heals.
+func (s *Sim) Diverge(p *Profile) {
+	d := s.D
+	var leader *Node
+	for _, n := range s.upNodes() {
+		if n.RN.BasicStatus().RaftState == raft.StateLeader {
+			leader = n
+			break
+		}
+	}
+	s.begin("Diverge")
+	if leader == nil {
+		return
+	}
+	s.Stats.inc("macro.diverge")
+	for _, id := range s.IDs {
+		if id != leader.ID {
+			s.Net.Blocked[[2]uint64{id, leader.ID}] = true
+			s.Net.Blocked[[2]uint64{leader.ID, id}] = true
+		}
+	}
+	k := d.Int(1, 4, "oldprops")
+	for i := 0; i < k && leader.Up; i++ {
+		s.Propose(leader, s.drawSize(p))
+	}
+	if leader.Up && d.Int(0, 2, "svc") > 0 {
+		s.Service(leader)
+	}
+	// elect somebody else among the rest
+	var rest []*Node
+	for _, n := range s.upNodes() {
+		if n.ID != leader.ID {
+			rest = append(rest, n)
+		}
+	}
+	if len(rest) == 0 {
+		return
+	}
+	cand := rest[d.Int(0, len(rest)-1, "cand")]
+	for i := 0; i < 3 && cand.Up && cand.RN.BasicStatus().RaftState != raft.StateLeader; i++ {
+		s.TickUntilCampaign(cand)
+		s.Stabilize(6)
+	}
+	if !cand.Up || cand.RN.BasicStatus().RaftState != raft.StateLeader {
+		return
+	}
+	s.Stats.inc("macro.diverge_new_leader")
+	k = d.Int(1, 5, "newprops")
+	for i := 0; i < k && cand.Up; i++ {
+		s.Propose(cand, s.drawSize(p))
+	}
+	s.Stabilize(6)
+	if cand.Up && d.Int(0, 1, "compact") == 1 {
+		if lo, hi := s.compactRange(cand); hi > lo {
+			s.Compact(cand, hi, hi)
+		}
+	}
+	if d.Int(0, 3, "heal") > 0 {
+		s.Heal()
+	}
+}
+
+// proposeMixed steps one MsgProp whose entries mix normal payloads and conf
+// changes (raft.stepLeader handles conf changes at any position of a batch).
+// Every entry is tracked as its own proposal.
+func (s *Sim) proposeMixed(n *Node, p *Profile) {
+	d := s.D
+	k := d.Int(2, 4, "mixed")
+	ccAt := d.Int(0, k-1, "ccpos")
+	var ents []*pb.Entry
+	var props []*Proposal
+	for i := 0; i < k; i++ {
+		s.propSeq++
+		if i == ccAt {
+			c2 := proto.Clone(s.drawConfChange()).(*pb.ConfChangeV2)
+			c2.Context = []byte(fmt.Sprintf("c%d|", s.propSeq))
+			typ, data, err := pb.MarshalConfChange(c2)
+			if err != nil {
+				s.harnessBug("marshal: %v", err)
+			}
+			props = append(props, &Proposal{Seq: s.propSeq, Node: n.ID, Inc: n.Inc, Step: s.Step + 1, Conf: true, Datas: [][]byte{data}, Types: []pb.EntryType{typ}})
+			ents = append(ents, &pb.Entry{Type: typ.Enum(), Data: append([]byte(nil), data...)})
+			continue
+		}
+		dta := s.payload(s.propSeq, 0, s.drawSize(p))
+		props = append(props, &Proposal{Seq: s.propSeq, Node: n.ID, Inc: n.Inc, Step: s.Step + 1, Datas: [][]byte{dta}, Types: []pb.EntryType{pb.EntryNormal}})
+		ents = append(ents, &pb.Entry{Data: append([]byte(nil), dta...)})
+	}
+	s.begin("ProposeMixed(%d p%d..p%d conf at %d)", n.ID, props[0].Seq, props[len(props)-1].Seq, ccAt)
+	s.Stats.inc("prop.mixed_batch")
+	for _, pr := range props {
+		s.Mon.beforePropose(n, pr)
+	}
+	wasLeader := n.RN.BasicStatus().RaftState == raft.StateLeader
+	m := &pb.Message{Type: pb.MsgProp.Enum(), From: new(n.ID), Entries: ents}
+	var err error
+	// the C20 per-proposal checks assume one proposal per call; pass none
+	s.touch(n, &Cause{Kind: "propose"}, func() { err = n.RN.Step(m) })
+	for _, pr := range props {
+		pr.Err = err
+		if isDropped(err) && wasLeader {
+			pr.LeaderDeliveries--
+		}
+	}
+	s.Mon.afterPropose(n, props[0])
+	s.tracef("    -> %v", err)
+}
+
+// Burst models a node whose disk is slow: several messages addressed to n are
+// delivered (some twice, back to back) while its storage threads do not run.
+// An async node takes a Ready after every message (pipelining storage work in
+// its queues); a sync node steps them all before its next Ready.
+func (s *Sim) Burst(n *Node) {
+	d := s.D
+	s.begin("Burst(%d)", n.ID)
+	s.Stats.inc("macro.burst")
+	k := d.Int(2, 6, "burst")
+	for j := 0; j < k && n.Up; j++ {
+		idx := -1
+		for _, i := range s.Net.deliverable() {
+			if s.Net.Pool[i].To == n.ID {
+				idx = i
+				break
+			}
+		}
+		if idx < 0 {
+			break
+		}
+		f := s.Net.remove(idx)
+		s.tracef("    burst deliver #%d %s", f.ID, shortMsg(f.M))
+		s.deliver(f)
+		if n.Up && n.Opts.Async && n.RN.HasReady() {
+			s.takeReadyAsync(n)
+		}
+		if n.Up && d.Int(0, 2, "again") == 0 {
+			s.Stats.inc("net.dup")
+			s.tracef("    burst redeliver #%d", f.ID)
+			s.deliver(f)
+			if n.Up && n.Opts.Async && n.RN.HasReady() {
+				s.takeReadyAsync(n)
+			}
+		}
+	}
+	if n.Up && len(n.AppendQ) >= 2 {
+		s.Stats.inc("async.append_queue_ge2")
+	}
+}
